@@ -297,3 +297,14 @@ def sx_fstr(*parts):
     for o in out:
         cps += chars.as_cps(o)
     return chars.mk(cps)
+
+
+def sx_in(x, c):
+    """x in c: == chain for a symbolic x against a hashed container, the ordinary operator otherwise"""
+    if getattr(x, '__sx_sym__', False) and isinstance(c, (set, frozenset, dict, tuple)) \
+            and not isinstance(x, (SymInt,)):
+        for e in c:
+            if x == e:
+                return True
+        return False
+    return x in c
